@@ -16,6 +16,11 @@ def main():
     env.import_repo()
     with open(spec_path) as f:
         spec = json.load(f)
+    if spec.get("tz"):
+        # the process's time zone is part of the environment a library call
+        # may (wrongly) depend on: some shards run away from UTC
+        os.environ["TZ"] = spec["tz"]
+        time.tzset()
     mod = importlib.import_module("vpm.props." + prop.lower())
     mon = Monitor(prop, spec.get("name", "-"))
     t0 = time.time()
